@@ -201,6 +201,21 @@ def judge_totality(v, tier, seed):
                 v.bad("refused-dropin-changed-engine", "", "drop-in %s was refused (%s) but the tick trace changed:\n before %s\n after  %s" % (meta, {k: a.get(k) for k in ("parse", "schedule", "apply")}, a["before"], a["after"]))
     v.count("dropin_applied", a2)
     v.count("dropin_refused", r2)
+    # a drop-in is honoured exactly or refused as a whole: one ruleset naming a base ruleset that does not exist makes the file
+    # invalid wherever in the list it stands
+    good1, good2 = SEED_DROPIN["rulesets"]
+    typo = dict(good2, name="r2x")
+    lists = {"typo": [typo], "typo,good": [typo, good1], "good,typo": [good1, typo], "good,good,typo": [good1, good2, typo], "good,typo,good": [good1, typo, good2]}
+    ans = pure.run_queries([{"q": "dropin_load", "base": json.dumps(SEED_BASE), "dropin": json.dumps({"rulesets": l})} for l in lists.values()])
+    for (nm, l), (a, crash) in zip(lists.items(), ans):
+        v.count("dropin_unknown_target_positions")
+        if crash or a is None:
+            ck = pure.crash_key(crash) if crash else ("no-answer", "", "")
+            v.bad("dropin-" + ck[0], ck[1], "drop-in rulesets %s\n%s" % (nm, ck[2]))
+        elif a.get("schedule") is True and a.get("apply") == ["t.json:ok"]:
+            v.bad("dropin-with-unknown-target-accepted", "", "drop-in with rulesets [%s] (typo = a base ruleset name that does not exist) was accepted: %s" % (nm, {k: a.get(k) for k in ("parse", "schedule", "apply", "after")}))
+        elif a.get("after") != a.get("before"):
+            v.bad("refused-dropin-changed-engine", "", "drop-in with rulesets [%s] was refused but the tick trace changed:\n before %s\n after  %s" % (nm, a["before"], a["after"]))
     return acc + a2 > 0 and rej + r2 > 0, len(cli_docs) + len(dr_docs)
 
 
